@@ -7,9 +7,13 @@ field).  Zero padding decodes to blank, so a line's own frames cannot legitimate
 Space (configuration lattice): ALL ordered lists of 0..N lines (with repetitions) over a 19-crop alphabet (widths 1,3,4,5,31,32,33,
 100,290,300, two equal-width twins with different content, one crop wider than the smallest engine maximum) x batch size x mode
 {sparse, dense, tight-crop, no-logits} x stub.  Each list is recognised by a fresh engine, then again in reversed order by the SAME
-engine (history), and once through PageOCR.process_page.
+engine (history), and once through PageOCR.process_page.  Sub-lattice 'x' (BOUNDS bsx / ctxx, lists of 1-2): the same engine then recognises the
+list in every other mode (all ordered pairs of modes); lists of 1-3: every network call of the call fails once (environment answer,
+mc/faults.py) - a value the call returns, and the next call, are checked like any other result.
 
-Oracle: the same line recognised alone by a fresh engine (same pixel budget), position by position.
+Oracle: the same line recognised alone by a fresh engine (same pixel budget), position by position; and a reference decoder: the
+transcription is the greedy CTC decoding of the logits returned for the line (the alone-run goes through the same decoder, so a
+decoder that leaks state between the rows of a batch - or from a row's end to its start - is invisible to the differential oracle).
 """
 import itertools
 import os
@@ -20,7 +24,7 @@ ID = 'C07'
 
 MANIFEST = dict(
     technique='explicit-state enumeration of all ordered line lists x batch sizes x modes x stub networks on the real engine (real constructor, TorchScript stub); differential oracle = each line recognised alone by a fresh engine',
-    text='Bounded exhaustive: every ordered list of 0-2 line crops over a 19-crop alphabet (widths 1..300, equal-width twins, an over-long crop) x batch size {1,2,3,16} (quick) / 1..16 (thorough) x {sparse, dense, tight-crop, no-logits} x two stub networks, every list of 3 crops for batch sizes {1,16} on the local stub (quick) / all batch sizes and both stubs (thorough), lists of 4 over a 6-crop sub-alphabet (thorough), each recognised, recognised again in reverse order on the same engine, and through PageOCR.process_page. At every position the text, the logits on the line\'s own frames and the frame window must equal those of the line recognised alone; sparse storage must hold exactly the dense logits with posterior >= 1e-4. Added sub-sweeps: crops of 417 / 440 / 448 / 500 px around the smallest engine maximum, a blank crop, a crop with logit range > 200, an embedding engine whose id changes between calls, 260 lines in one call, and a sparsification clause (exactly the entries with posterior >= 1e-4). Crops with identical bytes but different shape/dtype (the float64 placeholder of a failed crop next to a blank uint8 crop) in one call; the call after one in which the network raised out-of-memory once (injected fault).',
+    text='Bounded exhaustive: every ordered list of 0-2 line crops over a 19-crop alphabet (widths 1..300, equal-width twins, an over-long crop) x batch size {1,2,3,16} (quick) / 1..16 (thorough) x {sparse, dense, tight-crop, no-logits} x two stub networks, every list of 3 crops for batch sizes {1,16} on the local stub (quick) / all batch sizes and both stubs (thorough), lists of 4 over a 6-crop sub-alphabet (thorough), each recognised, recognised again in reverse order on the same engine, and through PageOCR.process_page. At every position the text, the logits on the line\'s own frames and the frame window must equal those of the line recognised alone; sparse storage must hold exactly the dense logits with posterior >= 1e-4. Added sub-sweeps: crops of 417 / 440 / 448 / 500 px around the smallest engine maximum, a blank crop, a crop with logit range > 200, an embedding engine whose id changes between calls, 260 lines in one call, and a sparsification clause (exactly the entries with posterior >= 1e-4). Crops with identical bytes but different shape/dtype (the float64 placeholder of a failed crop next to a blank uint8 crop) in one call; the call after one in which the network raised out-of-memory once (injected fault). Wave 10: (1) every fault point of the call on the list itself (mc/faults.py Injector on the network call, lists of 1-3, batch sizes {2,16} quick / all thorough): the call may raise, but a value it returns - and the next call on that engine - must give every line its own result; (2) mode history: after its calls in mode m the same engine recognises the list (1-2 crops) in every other mode, all ordered pairs of modes, each result compared with the line alone in that mode; (3) reference decoder clause: every dense / sparse transcription must be the greedy CTC decoding (each line on its own, no predecessor for frame 0) of the logits returned at that position, and the embedding stub makes the padding read as each character a, b, c (not blank) so that the first and last frame of a buffer row carry a character.',
     note='Stub networks with bounded horizontal receptive field (the property is stated for those); CPU only; float tolerance 1e-5 on logits.',
     ref='3/C07')
 
@@ -200,7 +204,7 @@ def compare(pos, i, got, ref, mode, w, bs, ctx_, K, desc, sub, ctx, padding_is_b
             if t != want_t:
                 ctx.violation('own-transcription-at-own-position', f'{K}/transcription-vs-own-logits',
                               f'{desc}: position {pos} (crop {CROPS[i]}): transcription {t!r}, but the greedy CTC decoding of the logits returned for '
-                              f'this line (which equal those of the line recognised alone) is {want_t!r}', sub)
+                              f'this line is {want_t!r}', sub)
                 return False
     if list(co) != list(rco):
         ctx.violation('own-window-at-own-position', f'{K}/window', f'{desc}: position {pos}: window {co} vs alone {rco}', sub)
@@ -440,12 +444,16 @@ def check_case(case, ctx):
 def describe(tier):
     return {
         'rule': f'all ordered lists of 0..depth crops over the {len(CROPS)}-crop alphabet (thorough: + depth 4 over a 6-crop sub-alphabet) x batch sizes x '
-                '4 modes x 2 stub networks; each list is recognised twice on one engine (second time reversed) and once through PageOCR. '
+                '4 modes x 2 stub networks; each list is recognised twice on one engine (second time reversed) and once through PageOCR; on the '
+                'sub-lattice bsx x ctxx additionally in every other mode on that engine (lists of 1-2) and with each of its network calls failing once '
+                '(lists of 1-3, sparse / dense). '
                 'state = (list, batch size, stub, mode). Non-trivial: lists with lines of different widths (sorting/padding/permutation matter).',
         'bounds': BOUNDS[tier], 'alphabets': {'crops(width, content)': CROPS, 'modes': MODES, 'stubs(ctx)': STUBS},
         'assumptions': ['frames beyond a line\'s own tensor are padding and only need to decode to blank',
                         'over-long lines are compared with the alone-run under the same pixel budget (truncation depends on it)'],
         'min_nontrivial': 100,
-        'required_tags': ['call-after-an-injected-out-of-memory-error', 'network-with-minus-infinity-logits', 'more-than-255-lines-in-one-call', 'embedding-engine-id-changed-between-calls', 'mixed-width-batches', 'truncated-line', 'several-batches', 'equal-width-lines', 'page-ocr-pages',
+        'required_tags': ['network-failure-injected-at-every-network-call-of-a-call', 'mode-changed-between-calls-on-one-engine',
+                          'transcription-decoded-again-from-the-returned-logits', 'padding-reads-as-every-character-of-the-alphabet',
+                          'call-after-an-injected-out-of-memory-error', 'network-with-minus-infinity-logits', 'more-than-255-lines-in-one-call', 'embedding-engine-id-changed-between-calls', 'mixed-width-batches', 'truncated-line', 'several-batches', 'equal-width-lines', 'page-ocr-pages',
                           'sparse-keeps-small-and-prunes-smaller'],
     }
